@@ -43,3 +43,104 @@ def c15_special(ctx):
         out["errors"].append("valgrind run failed rc=%s: %s" % (rc, err[-300:]))
     out["coverage"]["memcheck_s"] = round(time.time() - t0, 1)
     return out
+
+
+# ---------------------------------------------------------------------------------------------
+# C16: feature configurations
+
+def feature_table(repo="/repo"):
+    """feature sets the way ci/test_full.sh enumerates them, derived from Cargo.toml + the CI script"""
+    import itertools, re
+    toml = open(os.path.join(repo, "Cargo.toml")).read()
+    m = re.search(r"\[features\](.*?)\n\[", toml, re.S)
+    feats = re.findall(r"^(\w+)\s*=", m.group(1), re.M) if m else []
+    feats = [f for f in feats if f not in ("default", "std")]
+    std_feats = sorted(feats)
+    no_std_feats = ["rand", "serde"]
+    try:
+        ci = open(os.path.join(repo, "ci", "test_full.sh")).read()
+        m1 = re.search(r"STD_FEATURES=\(([^)]*)\)", ci)
+        m2 = re.search(r"NO_STD_FEATURES=\(([^)]*)\)", ci)
+        if m1:
+            std_feats = sorted(m1.group(1).split())
+        if m2:
+            no_std_feats = sorted(m2.group(1).split())
+    except OSError:
+        pass
+    cfgs = []
+    for r in range(len(std_feats) + 1):
+        for c in itertools.combinations(std_feats, r):
+            cfgs.append(("std",) + c)
+    for r in range(len(no_std_feats) + 1):
+        for c in itertools.combinations(no_std_feats, r):
+            cfgs.append(tuple(c))
+    return cfgs
+
+def c16_special(ctx):
+    """(1) cargo check of /repo in every documented feature configuration;
+       (2) the same deterministic request transcript through harness builds with/without std and
+           with/without the optional features, debug and release, compared byte for byte"""
+    out = {"coverage": {}, "violations": [], "errors": [], "notes": []}
+    verif, sh = ctx["verif"], ctx["sh"]
+    t0 = time.time()
+    cfgs = feature_table()
+    failed, built = [], 0
+    tdir = os.path.join(verif, "build", "c16")
+    for c in cfgs:
+        for prof in (["dev"] if ctx["tier"] == "quick" else ["dev", "release"]):
+            cmd = ["cargo", "check", "--offline", "--manifest-path", "/repo/Cargo.toml", "--target-dir", tdir,
+                   "--no-default-features", "--features", " ".join(c)]
+            if prof == "release":
+                cmd.append("--release")
+            rc, log = sh(cmd, timeout=1200)
+            built += 1
+            if rc != 0:
+                failed.append((c, prof, cmd, log[-1200:]))
+    out["coverage"]["feature_configs"] = [" ".join(c) or "(none)" for c in cfgs]
+    out["coverage"]["config_builds"] = built
+    out["coverage"]["config_build_failures"] = len(failed)
+    for (c, prof, cmd, log) in failed[:3]:
+        path = ctx["write_replay"](ctx["pid"], {"property": ctx["pid"], "kind": "config-does-not-build",
+                                                "features": list(c), "profile": prof, "command": " ".join(cmd), "log": log})
+        out["violations"].append((path, ""))
+    # transcripts
+    lines = ctx["lines"]
+    hcfgs = [("std rand serde", "release"), ("", "release"), ("std", "release"), ("rand serde", "release"),
+             ("std rand serde", "debug"), ("", "debug")]
+    if ctx["tier"] == "quick":
+        hcfgs = [hcfgs[0], hcfgs[1], hcfgs[4], hcfgs[5]]
+    outs = {}
+    for feats, prof in hcfgs:
+        name = (feats.replace(" ", "+") or "nostd") + "-" + prof
+        env = {"CARGO_TARGET_DIR": os.path.join(verif, "build", "cargo-cfg-" + (feats.replace(" ", "_") or "nostd"))}
+        cmd = ["cargo", "build", "--offline", "--no-default-features", "--features", feats]
+        if prof == "release":
+            cmd.append("--release")
+        rc, log = sh(cmd, cwd=os.path.join(verif, "harness"), timeout=1800, env=env)
+        if rc != 0:
+            if not failed:
+                path = ctx["write_replay"](ctx["pid"], {"property": ctx["pid"], "kind": "config-does-not-build",
+                                                        "features": feats.split(), "profile": prof, "command": " ".join(cmd),
+                                                        "log": log[-1200:]})
+                out["violations"].append((path, ""))
+            continue
+        binp = os.path.join(env["CARGO_TARGET_DIR"], "release" if prof == "release" else "debug", "nbharness")
+        outs[name] = ctx["run_harness"](binp, lines)
+    out["coverage"]["transcript_configs"] = sorted(outs)
+    out["coverage"]["transcript_lines"] = len(lines)
+    names = sorted(outs)
+    diffs = 0
+    if names:
+        ref = outs[names[0]]
+        for n in names[1:]:
+            for i, (a, b) in enumerate(zip(ref, outs[n])):
+                if a != b and "unsupported" not in (a, b):
+                    diffs += 1
+                    if diffs <= 3:
+                        path = ctx["write_replay"](ctx["pid"], {"property": ctx["pid"], "kind": "config-divergence",
+                                                                "request": lines[i], "configs": [names[0], n],
+                                                                "results": [a, b]})
+                        out["violations"].append((path, ""))
+    out["coverage"]["transcript_divergences"] = diffs
+    out["coverage"]["c16_s"] = round(time.time() - t0, 1)
+    return out
